@@ -244,11 +244,15 @@ def with_warnings(fn):
 
 @contract('regions/io/ds9/write.py::_serialize_ds9', props=['C09', 'C14'])
 class ds9_inexpressible_regions_are_skipped:
-    cases = {w + '@%d' % i: {'what': w, 'at': i} for w in ('compound', 'frame_without_ds9_name') for i in (0, 1, 2)}
+    # DS9's `ecliptic` is one particular ecliptic system; a region in any other one has no DS9 name (writing its numbers under
+    # `ecliptic` would put it elsewhere on the sky)
+    FRAMES_WITHOUT_NAME = {'frame_without_ds9_name': 'supergalactic', 'geocentric_ecliptic': 'geocentrictrueecliptic',
+                           'heliocentric_ecliptic': 'heliocentrictrueecliptic', 'mean_geocentric_ecliptic': 'geocentricmeanecliptic'}
+    cases = {w + '@%d' % i: {'what': w, 'at': i} for w in ('compound',) + tuple(FRAMES_WITHOUT_NAME) for i in (0, 1, 2)}
 
     def setup(B, what='compound', at=0):
         good = [mk(B, 'circle', 'g0', 'image', {'text': 'a'}), mk(B, 'ellipse', 'g1', 'fk5')]
-        bad = compound_of(B, 'bad') if what == 'compound' else mk(B, 'circle', 'bad', 'supergalactic')
+        bad = compound_of(B, 'bad') if what == 'compound' else mk(B, 'circle', 'bad', ds9_inexpressible_regions_are_skipped.FRAMES_WITHOUT_NAME[what])
         rs = good[:at] + [bad] + good[at:]
         return dict(rs=rs, good=good)
     call = lambda rs, good: (serialize(rs, 8), serialize(good, 8))
@@ -264,3 +268,22 @@ class ds9_empty_and_determinism:
     call = lambda r: (serialize([], 8), serialize([r], 8), serialize([r], 8))
     post = {'empty_list_gives_empty_text': lambda result: result[0] == '',
             'deterministic': lambda result: text_equal(result[1], result[2])}
+
+
+def _regular_polygon(B, name, n):
+    from contracts.common import pix, mk_meta, mk_visual
+    rad = B.real(name + '.radius')
+    B.assume(rad > 0)
+    return B.construct('regions/shapes/polygon.py::RegularPolygonPixelRegion', name, pix(B, name + '.center'), n, rad,
+                       angle=B.quantity(name + '.angle', 'deg'), meta=mk_meta(B, name + '.meta'), visual=mk_visual(B, name + '.visual'))
+
+
+@contract('regions/io/ds9/write.py::_serialize_ds9', props=['C09'])
+class ds9_regular_polygon_is_written_as_its_polygon:
+    """DS9 has no regular-polygon shape: the text is that of the equivalent generic polygon, at the precision asked for"""
+    cases = {f'{n}-p{p}': {'n': n, 'prec': p} for n in (3, 5) for p in (3, 8, 12)}
+
+    def setup(B, n=3, prec=8):
+        return dict(r=_regular_polygon(B, 'r', n), prec=prec)
+    call = lambda r, prec: (serialize([r], prec), serialize([r.to_polygon()], prec))
+    post = {'same_text_as_the_polygon': lambda result: text_equal(result[0], result[1])}
